@@ -199,3 +199,8 @@ Lemma volt_variants amp off res vs : volt_loop amp off res vs = volt_numpy amp o
 Proof.
   unfold volt_loop, volt_numpy. rewrite volt_loop_go_spec. cbn. destruct (existsb _ vs); reflexivity.
 Qed.
+
+(* non-vacuity: the hypotheses 0 < amp, 1 <= res are satisfiable and the functions compute the documented values *)
+Example code_example : 0 < 1 /\ (1 <= 14)%Z /\ code1 1 0 14 (1 # 2) = 12287%Z /\ code1 1 0 14 0 = 8192%Z
+                       /\ code1 1 0 1 0 = 0%Z /\ volt_numpy 1 0 14 (0 :: (3 # 2) :: nil) = OErr.
+Proof. vm_compute. repeat split; try reflexivity; try (intro; discriminate). Qed.
